@@ -511,3 +511,58 @@ def run(ctx) -> None:  # noqa: F811
              "intensity conservation nor propagate(+dz) o propagate(-dz) == identity hold")
     c38._copyguard_cached(ctx, ctx.repo)
     _inner_run_c04(ctx)
+
+
+# ---- added after the mutation sweep: the phases stay finite
+_inner_run_c04_sweep = run
+
+
+def _check_finite(ctx, f: FuncInfo, zero_params, nonzero_params) -> int:
+    from ..rules import finite as F
+
+    df = DataFlow(f.node)
+    calls = _phase_args(f)
+    ctx.require(len(calls) >= 1, f"{f.qualname}: no e^(i·phase) factor found")
+    for i, (c, _is_exp) in enumerate(calls):
+        at = _stmt_node(df, f, c)
+        dens = F.denominators(df, at, c.args[0])
+        bad, unknown = [], []
+        for d, dn in dens:
+            v = F.may_vanish(df, dn, d, zero_params, nonzero_params, zero_calls={"spatial_frequencies"},
+                             nonzero_calls={"energy2wavelength", "energy2sigma"})
+            if v == F.ZERO:
+                bad.append(d)
+            elif v == F.UNKNOWN:
+                unknown.append(d)
+        if unknown and not bad:
+            raise AnalysisError(f"{f.qualname}: cannot decide whether the divisor `{norm_text(unknown[0])[:60]}` in the "
+                                f"phase of {norm_text(c)[:40]} can vanish")
+        ctx.check(not bad, "R-FINITE", f"{f.qualname}:phase#{i + 1}", f.loc(c),
+                  f"{len(dens)} divisor(s) in the phase, none of them can vanish",
+                  f"the phase divides by `{norm_text(bad[0])[:70] if bad else ''}`, which is 0 for a legitimate input (the "
+                  "zero-frequency component of every grid, an untilted axis, vacuum in a potential slice): the phase is "
+                  "inf/nan there, e^(i·phase) is nan, and the nan spreads over the whole wave at the next FFT — the "
+                  "total intensity is not conserved, it is undefined", key_detail=f"phase{i + 1}")
+    return len(calls)
+
+
+def run(ctx) -> None:  # noqa: F811
+    repo = ctx.repo
+    ctx.rule("R-FINITE", "no phase handed to e^(i·phase) in the propagator, tilt and transmission kernels divides by a "
+             "quantity that vanishes for a legitimate input.  Divisors (right operands of `/`, bases of negative "
+             "powers, read through locals) are classified by dataflow: spatial_frequencies(...) (every grid has the "
+             "DC component), the tilt parameter and the potential array can be 0, and so can anything derived from "
+             "them by products, indexing and odd functions (tan, sin, sqrt ...) or a sum of such terms; literals, pi, "
+             "energy2wavelength / energy2sigma and thickness / sampling / energy are non-zero.  |e^(i·x)| = 1 needs a "
+             "finite real x: with x = ±inf or nan the kernel is nan and the modulus bound of R-MODULUS is void")
+    ctx.assume("slice thicknesses, samplings and energies are non-zero; tilt angles and potential values may be zero")
+    fp = repo.function(MS, "_fresnel_propagator_array")
+    tf = repo.function(MS, "_apply_tilt_to_fresnel_propagator_array")
+    ts = repo.method(IAM, "PotentialArray", "_transmission_function")
+    arr_p, en_p = [p for p in ts.positional_params if p not in ("self", "cls")][:2]
+    positive = {"thickness", "sampling", "energy", "gpts", "wavelength"}
+    n = _check_finite(ctx, fp, zero_params=set(), nonzero_params=positive)
+    n += _check_finite(ctx, tf, zero_params={"tilt"}, nonzero_params=positive)
+    n += _check_finite(ctx, ts, zero_params={arr_p}, nonzero_params={en_p})
+    ctx.require(n >= 5, f"R-FINITE examined only {n} phases")
+    _inner_run_c04_sweep(ctx)
